@@ -17,4 +17,6 @@ def units(ctx):
     from vf import ttlvunits, bounded
     us += ttlvunits.make_units(ctx, "C02")
     us += bounded.units(["biginteger", "bit_length"], ctx)
+    from vf import facts
+    us += facts.units(["wrappers_truthy"], ctx)
     return us
